@@ -358,6 +358,18 @@ Proof.
   - rewrite spl_f_affine by exact Hsx. unfold aff_val. destruct dx as [|[|dx]]; ring.
 Qed.
 
+Lemma ffd_affine_exact_2d_nth (dx dy sx sy mx my : nat) (c : list (list K)) (a bx by_ : K) (x y : nat) :
+  (1 <= sx)%nat -> (1 <= sy)%nat -> (x < mx)%nat -> (y < my)%nat ->
+  (forall j i, (j < ctrl_size my sy)%nat -> (i < ctrl_size mx sx)%nat -> at2 c j i = a + bx * cpos sx i + by_ * cpos sy j) ->
+  nth x (nth y (ev2 dx dy sx sy c mx my) []) 0 =
+    aff_val dy sy y (aff_val dx sx x a bx) (match dx with 0%nat => by_ | _ => 0 end).
+Proof.
+  intros Hsx Hsy Hx Hy Hc. unfold ev2.
+  rewrite (nth_map_seq (fun y => map (fun x => ev2_at dx dy sx sy c y x) (seq 0 mx))) by exact Hy.
+  rewrite (nth_map_seq (fun x => ev2_at dx dy sx sy c y x)) by exact Hx.
+  apply (ffd_affine_exact_2d dx dy sx sy mx my c a bx by_ x y Hsx Hsy Hx Hy Hc).
+Qed.
+
 Lemma ffd_affine_exact_3d (dx dy dz sx sy sz mx my mz : nat) (c : list (list (list K))) (a bx by_ bz : K) (x y z : nat) :
   (1 <= sx)%nat -> (1 <= sy)%nat -> (1 <= sz)%nat -> (x < mx)%nat -> (y < my)%nat -> (z < mz)%nat ->
   (forall k j i, (k < ctrl_size mz sz)%nat -> (j < ctrl_size my sy)%nat -> (i < ctrl_size mx sx)%nat ->
